@@ -401,7 +401,11 @@ class OptimizerLog:
             popt = popt.view(SymArray)
             pcov = None
         else:
-            popt, pcov = self.real_curve_fit(f, xdata, ydata, p0, sigma=sigma, bounds=bounds, **kw)
+            # concrete mode: a recognisable pseudo-optimum (the real optimiser may legitimately fail to converge on
+            # arbitrary replay data; its quality is outside every claim that uses this stub)
+            k = len(self.calls)
+            popt = np.array([float(v) + 0.137 * (i + 1) + 0.011 * k for i, v in enumerate(p0)])
+            pcov = None
         rec["popt"] = popt
         self.calls.append(rec)
         return popt, pcov
@@ -419,8 +423,13 @@ class OptimizerLog:
             r = R()
             r.x, r.success, r.message = x.view(SymArray), True, "stub"
         else:
-            r = self.real_minimize(fun, x0, args=args, method=method, bounds=bounds, constraints=constraints,
-                                   options=options, **kw)
+            class R:
+                pass
+
+            k = len(self.calls)
+            r = R()
+            r.x = np.array([float(v) + 0.137 * (i + 1) + 0.011 * k for i, v in enumerate(x0)])
+            r.success, r.message = True, "stub"
         rec["x"] = r.x
         self.calls.append(rec)
         return r
